@@ -249,6 +249,13 @@ func c07Direct(c *RunCtx, g *Gen) {
 	if t.Intn(30) == 0 {
 		lateRegister(c, g, name)
 	}
+	// the whole exchange (sender and receiver) may run in a process with fewer checksum services
+	// registered - the encoders support that, and what they emit then must still stream
+	cfgDesc, restore := registryConfig(c, t)
+	defer restore()
+	if cfgDesc != "" {
+		c.Logf("CONFIGURATION %s", cfgDesc)
+	}
 	s, ok := genSent(c, g, name)
 	if !ok {
 		return
@@ -283,6 +290,12 @@ func c07Direct(c *RunCtx, g *Gen) {
 	}
 	c.Oracle("accepts-own-encoding")
 	if r.Err != nil {
+		if cfgDesc != "" {
+			// sender and receiver both ran without a checksum service: a decoder that insists on
+			// verifying may legitimately refuse; only a frame it ACCEPTS is judged below
+			c.Probe("rejected-under-registry-configuration(inconclusive)")
+			return
+		}
 		c.Fail("C07/rejected", name, "Decode of %s's own encoding (%d bytes, followed by %d trailing bytes) returned %v", name, len(s.w), len(trailing), r.Err)
 		return
 	}
@@ -832,6 +845,29 @@ func runC08(c *RunCtx) {
 
 // ---------------------------------------------------------------- C09 / C10 : hostile and noisy streams
 
+// dirtyReceiver: in one run of four the faulted stream is decoded into a receiver object that
+// decoded a valid message of the type before (lists and parts populated), as a receive loop
+// that reuses its message objects would present it.
+func dirtyReceiver(c *RunCtx, g *Gen, name string) any {
+	recv := newValue(name)
+	if c.T.Intn(4) != 0 {
+		return recv
+	}
+	saved := g.cfg
+	g.cfg.ListCap = max(min(g.cfg.ListCap, 17), 3)
+	g.cfg.StrCap = max(min(g.cfg.StrCap, 40), 4)
+	other, ok := genSent(c, g, name)
+	g.cfg = saved
+	if !ok {
+		return recv
+	}
+	if rr := tryDecode(recv, bytes.NewBuffer(cloneBytes(other.w))); rr.Err != nil || rr.Panic != nil {
+		return newValue(name)
+	}
+	c.Fire("recv.dirty")
+	return recv
+}
+
 func tickBudget(n int) uint64 { return 5000 + 100*uint64(n) }
 
 // faultedInput draws a decoder type and a (usually malformed) input for it; in one run of four
@@ -1008,7 +1044,11 @@ func runC09(c *RunCtx) {
 	shape := drawBufShape(c.T)
 	c.Logf("DECODER %s FAULT %s INPUT %s in %s", name, desc, hexClip(w, 128), shape)
 	buf := shape.build(c, w)
-	recv := newValue(name)
+	recv := dirtyReceiver(c, g, name)
+	if c.T.Intn(40) == 0 {
+		// the application registers a further discriminator key while traffic is flowing
+		lateRegister(c, &Gen{t: c.T, cfg: g.cfg}, name)
+	}
 	budget := tickBudget(len(w))
 	r := tryDecodeBudget(recv, buf, budget)
 	c.T.Observe(r.Ticks)
@@ -1055,7 +1095,7 @@ func runC10(c *RunCtx) {
 	shape := drawBufShape(t)
 	c.Logf("DECODER %s FAULT %s INPUT %s in %s", name, desc, hexClip(w, 128), shape)
 	buf := shape.build(c, w)
-	recv := newValue(name)
+	recv := dirtyReceiver(c, g, name)
 	cd := asCodec(recv)
 	var m0, m1 runtime.MemStats
 	var panicked any
@@ -1265,6 +1305,24 @@ func runC15(c *RunCtx) {
 	}
 	c.Logf("BYTES (%s) %s ; RECEIVER %s", desc, hexClip(w, 96), how)
 	db := bytes.NewBuffer(cloneBytes(w))
+	if relative != nil && t.Intn(2) == 0 {
+		// one pooled receive buffer: what the receiver decoded before arrived in the same backing
+		// array that now holds these bytes (decoded again here, then overwritten in place)
+		arr := make([]byte, max(len(relative), len(w))+32)
+		copy(arr, relative)
+		pb := bytes.NewBuffer(arr[:len(relative)])
+		again := newValue(name)
+		if rr := tryDecode(again, pb); rr.Err == nil && rr.Panic == nil {
+			dirty = again
+			for i := range arr {
+				arr[i] = 0
+			}
+			copy(arr, w)
+			db = bytes.NewBuffer(arr[:len(w)])
+			how += " (from the same pooled backing array that now holds these bytes)"
+			c.Probe("history.same-backing-array")
+		}
+	}
 	r2 := tryDecode(dirty, db)
 	c.Oracle("dirty-decode-same-outcome")
 	if r2.Panic != nil {
